@@ -651,21 +651,21 @@ Proof.
 Qed.
 
 (* ------------------------------------------------------------------ T4: iset->list *)
-Lemma zrange_In : forall s e m, In m (zrange s e) <-> s <= m <= e.
+Lemma zrange_n_In : forall n s m, In m (zrange_n n s) <-> s <= m < s + Z.of_nat n.
 Proof.
-  intros s e m. unfold zrange. rewrite in_map_iff. split.
-  - intros (i & Hi & Hin). apply in_seq in Hin. lia.
-  - intro H. exists (Z.to_nat (m - s)). split; [lia|]. apply in_seq. lia.
+  induction n as [|n IH]; intros s m; cbn [zrange_n In]; [lia|].
+  rewrite IH. lia.
 Qed.
+Lemma zrange_In : forall s e m, In m (zrange s e) <-> s <= m <= e.
+Proof. intros s e m. unfold zrange. rewrite zrange_n_In. lia. Qed.
 
-Lemma seq_map_sorted : forall s len start, StronglySorted Z.lt (map (fun i => s + Z.of_nat i) (seq start len)).
+Lemma zrange_n_sorted : forall n s, StronglySorted Z.lt (zrange_n n s).
 Proof.
-  intros s len. induction len as [|len IH]; intro start; cbn [seq map]; [constructor|].
-  constructor; [apply IH|]. apply Forall_forall. intros x Hx. apply in_map_iff in Hx.
-  destruct Hx as (i & Hi & Hin). apply in_seq in Hin. lia.
+  induction n as [|n IH]; intro s; cbn [zrange_n]; constructor; [apply IH|].
+  apply Forall_forall. intros x Hx. apply zrange_n_In in Hx. lia.
 Qed.
 Lemma zrange_sorted : forall s e, StronglySorted Z.lt (zrange s e).
-Proof. intros. apply seq_map_sorted. Qed.
+Proof. intros. apply zrange_n_sorted. Qed.
 
 Lemma sorted_map_add : forall s l, StronglySorted Z.lt l -> StronglySorted Z.lt (map (fun i => s + i) l).
 Proof.
@@ -694,28 +694,63 @@ Proof.
     rewrite Z.bits_above_log2 in Ht by lia. discriminate.
 Qed.
 
+Lemma testbit_xO : forall q k, Z.testbit (Zpos q~0) k = (0 <? k) && Z.testbit (Zpos q) (k - 1).
+Proof.
+  intros q k. rewrite Pos2Z.inj_xO. destruct (Z.ltb_spec 0 k) as [H|H]; cbn [andb].
+  - replace k with (Z.succ (k - 1)) at 1 by lia. apply Z.testbit_even_succ. lia.
+  - destruct (Z.eq_dec k 0) as [->|Hne]; [apply Z.testbit_even_0 | apply Z.testbit_neg_r; lia].
+Qed.
+Lemma testbit_xI : forall q k, Z.testbit (Zpos q~1) k = (k =? 0) || Z.testbit (Zpos q) (k - 1).
+Proof.
+  intros q k. rewrite Pos2Z.inj_xI. destruct (Z.eqb_spec k 0) as [->|Hne]; cbn [orb]; [apply Z.testbit_odd_0|].
+  destruct (Z_lt_le_dec k 0) as [H|H]; [rewrite !Z.testbit_neg_r by lia; reflexivity|].
+  replace k with (Z.succ (k - 1)) at 1 by lia. apply Z.testbit_odd_succ. lia.
+Qed.
+Lemma testbit_xH : forall k, Z.testbit 1 k = (k =? 0).
+Proof. intros [|k|k]; reflexivity. Qed.
+
+Lemma pos_elems_In : forall p i m, In m (pos_elems p i) <-> i <= m /\ Z.testbit (Zpos p) (m - i) = true.
+Proof.
+  induction p as [q IH|q IH|]; intros i m; cbn [pos_elems In].
+  - rewrite IH, testbit_xI. replace (m - (i + 1)) with (m - i - 1) by lia.
+    destruct (Z.eqb_spec (m - i) 0) as [E|E]; cbn [orb].
+    + split; [intro; split; [lia|reflexivity]|]. intros _. left. lia.
+    + split; [intros [H|[H1 H2]]; [lia|split; [lia|exact H2]] | intros [H1 H2]; right; split; [lia|exact H2]].
+  - rewrite IH, testbit_xO. replace (m - (i + 1)) with (m - i - 1) by lia.
+    destruct (Z.ltb_spec 0 (m - i)) as [E|E]; cbn [andb];
+      [split; intros [H1 H2]; (split; [lia|exact H2])|].
+    split; [intros [H1 H2]|intros [_ H]; discriminate].
+    rewrite Z.testbit_neg_r in H2 by lia. discriminate.
+  - rewrite testbit_xH. destruct (Z.eqb_spec (m - i) 0) as [E|E]; [|split; [lia|intros [_ H]; discriminate]].
+    split; [intro; split; [lia|reflexivity]|]. intros _. left. lia.
+Qed.
+
+Lemma pos_elems_sorted : forall p i, StronglySorted Z.lt (pos_elems p i).
+Proof.
+  induction p as [q IH|q IH|]; intro i; cbn [pos_elems].
+  - constructor; [apply IH|]. apply Forall_forall. intros x Hx. apply pos_elems_In in Hx. lia.
+  - apply IH.
+  - repeat constructor.
+Qed.
+
 Lemma node_elems_In : forall s e bits m, s <= e -> bits_ok s e bits ->
   (In m (node_elems s e bits) <-> nmem s e bits m = true).
 Proof.
   intros s e bits m Hse Hok. unfold node_elems, nmem. destruct bits as [b|].
-  - cbn [bits_ok] in Hok. rewrite in_map_iff. split.
-    + intros (i & Hi & Hin). apply filter_In in Hin. destruct Hin as [_ Ht]. subst m.
-      replace (s + i - s) with i by lia. rewrite Ht.
-      apply small_iff in Hok; [|lia]. destruct Hok as [Hb Hhi].
-      assert (0 <= i) by (apply (testbit_true_range b i Hb Ht)).
-      assert (i < e - s + 1).
-      { destruct (Z_lt_le_dec i (e - s + 1)) as [Hlt|Hge]; [exact Hlt|]. rewrite (Hhi i Hge) in Ht. discriminate. }
-      zb; cbn [andb]; try reflexivity; lia.
-    + intro H. apply andb_prop in H. destruct H as [_ Ht]. exists (m - s). split; [lia|].
-      apply filter_In. split; [|exact Ht]. apply zrange_In.
-      pose proof (testbit_true_range b (m - s) ltac:(lia) Ht). lia.
+  - cbn [bits_ok] in Hok. destruct b as [|p|p]; [| |lia].
+    + rewrite Z.testbit_0_l, andb_false_r. cbn [In]. split; [tauto|discriminate].
+    + rewrite pos_elems_In. apply small_iff in Hok; [|lia]. destruct Hok as [Hb Hhi]. split.
+      * intros [H1 Ht]. rewrite Ht.
+        assert (m - s < e - s + 1).
+        { destruct (Z_lt_le_dec (m - s) (e - s + 1)) as [Hlt|Hge]; [exact Hlt|]. rewrite (Hhi _ Hge) in Ht. discriminate. }
+        zb; cbn [andb]; try reflexivity; lia.
+      * intro H. apply andb_prop in H. destruct H as [H Ht]. apply andb_prop in H. split; [lia|exact Ht].
   - rewrite zrange_In. zb; cbn [andb]; split; intros; try lia; try reflexivity; discriminate.
 Qed.
 
 Lemma node_elems_sorted : forall s e bits, StronglySorted Z.lt (node_elems s e bits).
 Proof.
-  intros s e [b|]; cbn [node_elems]; [|apply zrange_sorted].
-  apply sorted_map_add. apply canon_filter. apply zrange_sorted.
+  intros s e [[|p|p]|]; cbn [node_elems]; [constructor | apply pos_elems_sorted | constructor | apply zrange_sorted].
 Qed.
 
 Lemma nmem_range : forall s e bits m, nmem s e bits m = true -> s <= m <= e.
